@@ -25,6 +25,8 @@ def cases(tier, seed):
     n = 240 if tier == "quick" else 14400
     kinds = ["scalar", "single", "ascending", "descending", "shuffled", "with_top_first", "full", "full_reversed"]
     out_ = [{"seed": seed, "idx": i, "sel": kinds[i % len(kinds)]} for i in range(n)]
+    # the configuration-driven drivers pass output_levels / full_output through: every step of a series carries its own heights
+    out_ += [{"seed": seed, "idx": i, "kind": "iface", "_cost": 3} for i in range(16 if tier == "quick" else 320)]
     if tier == "thorough":
         out_.append({"seed": seed, "kind": "repo_tests", "_cost": 40})
     return out_
@@ -38,6 +40,8 @@ def run_case(case):
     import numpy as np
     from vlib import gen, solve
 
+    if case.get("kind") == "iface":
+        return iface_case(case)
     rng = gen.rng_for(case["seed"], "C10", case["idx"])
     St, _ = gen.draw_setup(rng, even=bool(rng.random() < 0.85), nzmin=2, nzmax=int(rng.choice([8, 24, 63])), nmax=16)
     if St is None:
@@ -134,3 +138,77 @@ def run_case(case):
          f"halo:{St['halo_class']}": 1}
     return {"evals": counters["slices_compared"] + nl, "nontrivial": nl >= 2, "sig": f"{case['idx']}|{sel}", "buckets": b, "resid": resid,
             "counters": counters, "violations": viol, "sample": {"setup": desc, "levels": idx, "form": form, "footprint": fp, "analytic": analytic}}
+
+
+def iface_case(case):
+    """run_bldfm_timeseries / run_bldfm_single with output_levels or full_output: slice k of step i is the solution at the height the
+    grid reports for it - the heights of step i's own column (they change with the roughness length derived per step)."""
+    import warnings
+
+    import numpy as np
+    import bldfm
+    from bldfm.config_parser import parse_config_dict
+    from bldfm.pbl_model import vertical_profiles
+    from bldfm.utils import compute_wind_fields
+    from vlib import gen
+
+    rng = gen.rng_for(case["seed"], "C10iface", case["idx"])
+    ns = int(rng.integers(2, 5))
+    nz = int(rng.integers(4, 10))
+    zm = float(rng.uniform(3, 10))
+    full = bool(rng.random() < 0.3)
+    lv = list(range(nz + 1)) if full else [int(v) for v in rng.permutation(nz + 1)[: int(rng.integers(2, 4))]]
+    forcing = str(rng.choice(["ustar_series", "ustar_series", "z0"]))
+    met = {"wind_speed": [float(rng.uniform(2.5, 6)) for _ in range(ns)], "wind_dir": [float(rng.uniform(0, 360)) for _ in range(ns)],
+           "mol": [float(rng.choice([-1, 1]) * rng.uniform(80, 500)) for _ in range(ns)]}
+    if forcing == "z0":
+        met["z0"] = float(rng.uniform(0.02, 0.15))
+    else:
+        met["ustar"] = [float(w * rng.uniform(0.07, 0.11)) for w in met["wind_speed"]]
+    dom = {"nx": 12, "ny": 10, "xmax": 120.0, "ymax": 80.0, "nz": nz, "modes": [12, 10], "halo": 20.0, "ref_lat": 50.0, "ref_lon": 11.0}
+    if full:
+        dom["full_output"] = True
+    else:
+        dom["output_levels"] = lv
+    fp = bool(rng.random() < 0.6)
+    raw = {"domain": dom, "towers": [{"name": "T", "lat": 50.0003, "lon": 11.0006, "z_m": zm}], "met": met,
+           "solver": {"closure": "MOST", "footprint": fp, "precision": "double"}}
+    viol = []
+    counters = {"series_runs": 0, "slices_compared": 0}
+    ctx = dict(levels=lv, full_output=full, steps=ns, forcing=forcing, footprint=fp, nz=nz, zm=zm)
+    with warnings.catch_warnings():
+        warnings.simplefilter("ignore")
+        with np.errstate(all="ignore"):
+            try:
+                cfg = parse_config_dict(raw)
+                series = bldfm.run_bldfm_timeseries(cfg, cfg.towers[0])
+            except Exception as e:  # noqa
+                return {"evals": 0, "nontrivial": False, "skipped": f"configuration outside the model's domain ({type(e).__name__})"}
+            counters["series_runs"] += 1
+            for i, r in enumerate(series):
+                u, v = compute_wind_fields(met["wind_speed"][i], met["wind_dir"][i])
+                kw = {"z0": met["z0"]} if forcing == "z0" else {"ustar": met["ustar"][i]}
+                z, _ = vertical_profiles(n=nz, meas_height=zm, wind=(u, v), mol=met["mol"][i], closure="MOST", **kw)
+                z = np.asarray(z, dtype=float)
+                Z = np.asarray(r["grid"][2])
+                c, f = np.asarray(r["conc"]), np.asarray(r["flx"])
+                if Z.shape[0] != len(lv) or c.shape[0] != len(lv):
+                    viol.append(dict(what="height_coordinate_is_not_the_requested_levels_height", step=i, shapes=(Z.shape, c.shape), **ctx))
+                    continue
+                if not np.array_equal(Z[:, 0, 0], z[lv]):
+                    viol.append(dict(what="height_coordinate_is_not_the_requested_levels_height", step=i, got=Z[:, 0, 0].tolist(),
+                                     expected=z[lv].tolist(), **ctx))
+                # slice k against the single-level run of the same step
+                k = int(rng.integers(len(lv)))
+                raw1 = {**raw, "domain": {kk: vv for kk, vv in dom.items() if kk not in ("full_output", "output_levels")}}
+                raw1["domain"]["output_levels"] = [lv[k]]
+                cfg1 = parse_config_dict(raw1)
+                r1 = bldfm.run_bldfm_single(cfg1, cfg1.towers[0], met_index=i)
+                counters["slices_compared"] += 1
+                c1, f1 = np.asarray(r1["conc"]), np.asarray(r1["flx"])
+                c1, f1 = c1.reshape(c1.shape[-2:]), f1.reshape(f1.shape[-2:])
+                e = max(float(np.max(np.abs(c[k] - c1))) / (float(np.max(np.abs(c1))) or 1.0), float(np.max(np.abs(f[k] - f1))) / (float(np.max(np.abs(f1))) or 1.0))
+                if e > 1e-12:
+                    viol.append(dict(what="slice_is_not_the_solution_at_its_level", step=i, level=lv[k], rel=e, driver="run_bldfm_timeseries", **ctx))
+    return {"evals": counters["slices_compared"], "nontrivial": True, "sig": f"iface|{case['idx']}", "buckets": {"interface_series": 1, f"iface_forcing:{forcing}": 1},
+            "counters": counters, "violations": viol, "sample": ctx}
